@@ -1079,7 +1079,7 @@ fn modes<F: FnMut(&mut V)>(mut f: F) {
 
 pub fn all_cases(tier: Tier) -> Vec<Box<dyn BoxCase>> {
     let th = tier == Tier::Thorough;
-    let lmax = if th { 3 } else { 2 };
+    let lmax = if th { 4 } else { 3 };
     let mut out: Vec<Box<dyn BoxCase>> = vec![];
     macro_rules! add {
         ($name:literal, $shape:expr, $gen:expr) => {{
